@@ -11,6 +11,7 @@ package main
 import (
 	"go/ast"
 	"go/token"
+	"strings"
 )
 
 func init() { constGens["cfgtimeout"] = genCfgTimeout }
@@ -139,4 +140,39 @@ func genCfgTimeout(s *src, o *out) {
 		}
 	}
 	o.raw("Definition cfgtimeout_timer : N * Z := (%d%%N, (%d)%%Z).\n", top, tval)
+	// a relay in between (relay.go): it unmarshals the record into a config of its own (default)
+	// and marshals that whole struct again: the member is present unless its tag says omitempty
+	rdef, have := int64(0), false
+	ast.Inspect(s.fn("TrzszRelay.recvConfig").Body, func(n ast.Node) bool {
+		if kv, ok := n.(*ast.KeyValueExpr); ok && s.text(kv.Key) == "Timeout" {
+			rdef, have = s.evalInt(kv.Value, nil, 0), true
+		}
+		return true
+	})
+	if !have {
+		die("cfgtimeout: the relay's recvConfig no longer sets a default Timeout")
+	}
+	o.defZ("cfgtimeout_relay_default", rdef)
+	omit, tagged := false, false
+	for _, f := range s.files {
+		ast.Inspect(f, func(n ast.Node) bool {
+			ts, ok := n.(*ast.TypeSpec)
+			if !ok || ts.Name.Name != "transferConfig" {
+				return true
+			}
+			if st, ok := ts.Type.(*ast.StructType); ok {
+				for _, fd := range st.Fields.List {
+					if len(fd.Names) == 1 && fd.Names[0].Name == "Timeout" && fd.Tag != nil {
+						tagged = strings.Contains(fd.Tag.Value, `json:"timeout`)
+						omit = strings.Contains(fd.Tag.Value, "omitempty")
+					}
+				}
+			}
+			return false
+		})
+	}
+	if !tagged {
+		die("cfgtimeout: transferConfig.Timeout no longer has the json tag timeout")
+	}
+	o.raw("Definition cfgtimeout_relay_omitempty : bool := %v.\n", omit)
 }
